@@ -17,8 +17,10 @@
                       cn     : Seq(char)]       subject common name
 
    Verdict(host, cert) \in {"accept", "reject", "open"}.  "open" = the statement does not pin
-   the answer down (a host or pattern with an empty label: it does not say whether '*' may
-   match an empty label, nor whether an empty name matches); such cases are never judged.
+   the answer down (an empty label under a '*' label or against an empty literal label, the
+   empty name against itself, non-ASCII case folding); such cases are never judged.  A label
+   count that differs after removing ONE trailing dot, or an empty label against a non-empty
+   literal label, is a definite reject.
 
    Constants-free operator module. *)
 EXTENDS Integers, Sequences, FiniteSets
@@ -148,15 +150,22 @@ FoldE(l) == IF Len(l) < 2 THEN l
             ELSE IF l[1] = "xC3" /\ l[2] = "x89" THEN <<"xC3", "xA9">> \o FoldE(SubSeq(l, 3, Len(l)))
             ELSE <<l[1]>> \o FoldE(Tail(l))
 
-\* pattern p against host h, both already lower-cased: "accept" / "reject" / "open"
+\* pattern p against host h, both already lower-cased: "accept" / "reject" / "open".
+\* The statement pins down: exactly ONE trailing dot is ignored on each side, then the names are compared
+\* label by label.  So after that single removal
+\*   - different label counts                                          => reject (definite)
+\*   - a literal (non-'*') pattern label that differs from the host label, one of them possibly
+\*     empty (a second trailing dot, a leading dot, "a..b")            => reject (definite)
+\* and only what the statement really leaves unsaid stays open: an empty host label under a '*' label,
+\* an empty literal label against an empty label (incl. the empty name), and non-ASCII case folding.
 PairVerdict(p, h) ==
   LET pl == Labels(p)
       hl == Labels(h)
-  IN IF HasEmptyIn(pl) \/ HasEmptyIn(hl) THEN "open"
-     ELSE IF Len(pl) # Len(hl) THEN "reject"
+  IN IF Len(pl) # Len(hl) THEN "reject"
+     ELSE IF \E i \in 1..Len(pl) : pl[i] # <<"*">> /\ pl[i] # hl[i] /\ FoldE(pl[i]) # FoldE(hl[i]) THEN "reject"
+     ELSE IF \E i \in 1..Len(pl) : hl[i] = <<>> THEN "open"     \* empty under '*', or empty = empty
      ELSE IF \A i \in 1..Len(pl) : pl[i] = <<"*">> \/ pl[i] = hl[i] THEN "accept"
-     ELSE IF \A i \in 1..Len(pl) : pl[i] = <<"*">> \/ FoldE(pl[i]) = FoldE(hl[i]) THEN "open"
-     ELSE "reject"
+     ELSE "open"                                                \* equal only after folding E-acute
 
 \* the names the certificate offers: DNS SANs, or the common name iff there is no SAN extension
 Offered(cert) == IF cert.hasSAN THEN cert.dns ELSE <<cert.cn>>
